@@ -53,12 +53,13 @@ pub fn state_key(p: &Pczt) -> Result<Vec<u8>, String> {
 /// Invariants of one state. Returns outcome classes.
 pub fn check_state(shape: &Shape, id0: &[u8; 32], p: &Pczt) -> Result<Vec<String>, String> {
     let mut outs = vec![];
+    // encoding first: one of the identity opinions goes through the stored bytes
+    outs.push(format!("state:{}", encoding_check(p)?));
     match identity(p)? {
         Some(id) if id == *id0 => {}
         Some(id) => return Err(format!("effects identity changed: {} (as created: {})", hex::encode(id), hex::encode(id0))),
         None => return Err("effects identity is no longer computable".into()),
     }
-    outs.push(format!("state:{}", encoding_check(p)?));
     // transport cycle
     // (a serialize/parse cycle is part of encoding_check: the value parsed back is the same value)
     // verifier pass
@@ -304,6 +305,9 @@ pub fn explore(run: &Run, args: &Args, subjects: &[Subjects]) {
         .iter()
         .map(|s| {
             let mut roles = s.shape.roles(false);
+            if quick && shapes::is_memo_shape(s.shape.name) {
+                roles.retain(|r| !matches!(r, Role::RedactLight | Role::RedactHeavy));
+            }
             if quick && roles.len() > 8 {
                 // quick tier: bound the multiset at 8 roles (the heavy redaction is the one dropped first)
                 roles.retain(|r| !matches!(r, Role::RedactHeavy));
@@ -316,7 +320,11 @@ pub fn explore(run: &Run, args: &Args, subjects: &[Subjects]) {
         })
         .collect();
     let results: Vec<(&Subjects, Vec<Role>, Explored)> = plain.into_par_iter().map(|(s, roles)| {
+        let ts = std::time::Instant::now();
         let e = search(run, &s.shape, &s.id0, &roles, "plain", args.tier.pick(40.0, 420.0));
+        if std::env::var("VERIF_C13_DEBUG").is_ok() {
+            eprintln!("TIME search {} {:.2}s", s.shape.name, ts.elapsed().as_secs_f64());
+        }
         (s, roles, e)
     }).collect();
     for (s, roles, e) in results {
